@@ -881,6 +881,8 @@ fn gen_w(out: &mut Vec<String>, seed: u64, thorough: bool) {
         0xB300_0000, 0x4000_0000, 0x4780_0000, 0x477F_FE00, 0x7F00_0000, 0x3C00_0000, 0x3B80_8081, 0x3700_0000,
         0x3700_0080, 0x3700_0100, 0x36FF_FFFF, 0x3700_0001, 0x3780_0000, 0x3780_0040, 0x2480_0000, 0x2400_0000,
         0x2500_0000, 0x1E80_0000, 0x0D00_0000, 0x0C80_0000,
+        // 0.25 and 0.75: the only inputs whose product with 65534 is an exact tie (k + 0.5), and neighbours
+        0x3E80_0000, 0x3E7F_FFFF, 0x3E80_0001, 0x3F40_0000, 0x3F3F_FFFF, 0x3F40_0001,
     ];
     let threshold = |k: u32| (((k as f64) + 0.5) / 65534.0) as f32;
     for name in W_FORMATS {
